@@ -85,7 +85,33 @@ Definition range_elems (t : Z * Z * Z) : list Z := map (fun k => range_nth t (Z.
 
 Definition zb (b : bool) : Z := if b then 1 else 0.
 
+(* utils._is_number: a Python number OR a 0-dim tensor.  A 0-dim boolean mask therefore takes the "number" branches
+   (range(n)[tensor(True)] is range(n)[1]) although it is kept as a mask in the sub-index handed to the members. *)
+Definition as_number (it : item) : option Z :=
+  match it with
+  | IInt i => Some i
+  | IMask [] [b] => Some (if b then 1 else 0)
+  | _ => None
+  end.
+
 Definition split_step (sd : nat) (n : nat) (shape : list Z) (i : nat) (it : item) (s : sstate) : res sstate :=
+  match as_number it with
+  | Some j =>
+      if Nat.eqb (st_cursor s) sd then
+        match norm_i j (Z.of_nat n) with                (* range(n)[j] *)
+        | Some j' => Ok {| st_out := st_out s; st_sel := SRange [j']; st_num_single := st_num_single s;
+                           st_num_none := st_num_none s; st_num_squash := st_num_squash s; st_isint := true;
+                           st_has_bool := st_has_bool s; st_nd := st_nd s; st_enc := st_enc s; st_cursor := S (st_cursor s);
+                           st_split_dim := st_split_dim s; st_mask_loc := st_mask_loc s; st_masks := st_masks s |}
+        | None => Raised
+        end
+      else
+        Ok {| st_out := st_out s ++ [OI it]; st_sel := st_sel s;
+              st_num_single := st_num_single s + zb (st_cursor s <? sd)%nat;
+              st_num_none := st_num_none s; st_num_squash := st_num_squash s;
+              st_isint := st_isint s; st_has_bool := st_has_bool s; st_nd := st_nd s; st_enc := st_enc s;
+              st_cursor := S (st_cursor s); st_split_dim := st_split_dim s; st_mask_loc := st_mask_loc s; st_masks := st_masks s |}
+  | None =>
   match it with
   | INone =>
       Ok {| st_out := st_out s ++ [OI INone]; st_sel := st_sel s; st_num_single := st_num_single s;
@@ -169,6 +195,7 @@ Definition split_step (sd : nat) (n : nat) (shape : list Z) (i : nat) (it : item
                 st_cursor := S (st_cursor s); st_split_dim := st_split_dim s; st_mask_loc := st_mask_loc s; st_masks := st_masks s |}
       | _ => Raised
       end
+  end
   end.
 
 Fixpoint split_loop (sd n : nat) (shape : list Z) (i : nat) (idx : list item) (s : sstate) : res sstate :=
@@ -220,6 +247,23 @@ Definition split_index (sd n : nat) (shape : list Z) (index : list item) : res s
     | _ => Ok (mk (KDict (map (fun j => (j, sub)) js)))
     end))).
 
+(* utils._getitem_batch_size on the RAW index (at most one advanced index): an un-converted Ellipsis consumes one
+   dim and contributes nothing (quirk, visible only in the empty-mask branch of __getitem__) *)
+Fixpoint gbs_raw (idx : list item) (shape : list Z) : res (list Z) :=
+  match idx with
+  | [] => Ok shape
+  | INone :: r => rbind (gbs_raw r shape) (fun t => Ok (1 :: t))
+  | IInt _ :: r | IEll :: r => gbs_raw r (tl shape)
+  | ISl a b c :: r =>
+      match shape with
+      | s :: sh => if step_of c =? 0 then Raised
+                   else rbind (gbs_raw r sh) (fun t => Ok (range_len (py_indices a b (step_of c) s) :: t))
+      | [] => Raised
+      end
+  | ITen tsh _ :: r => rbind (gbs_raw r (tl shape)) (fun t => Ok (tsh ++ t))
+  | IMask msh bits :: r => rbind (gbs_raw r (skipn (List.length msh) shape)) (fun t => Ok (lenZ (true_pos bits) :: t))
+  end.
+
 (* ------------------------------------------------------------------------------------------------------------
    __getitem__ (_lazy.py:2304-2401) *)
 Definition is_stack (a : arr) : bool := match a with Stack _ _ _ => true | _ => false end.
@@ -252,7 +296,12 @@ Definition m_cat (parts : list arr) (dim : nat) : res arr :=
           match opt_bind (shape_of (Stack sd bs0 ps0)) (fun sh => nth_error sh dim) with
           | None => Raised                                      (* dim >= len(batch_size) *)
           | Some _ =>
-            if Nat.eqb dim sd then Ok (Stack sd bs0 (concat (map (fun t => snd t) sps)))
+            if Nat.eqb dim sd then
+              match concat (map (fun t => snd t) sps) with
+              | [] => (* LazyStackedTensorDict(stack_dim=sd) without members and without batch_size: batch [] *)
+                      if Nat.eqb sd 0 then Ok (Stack 0 [] []) else Raised
+              | ps => Ok (Stack sd bs0 ps)
+              end
             else let new_dim := if (sd <? dim)%nat then (dim - 1)%nat else dim in
                  Ok (Stack sd bs0 (map (fun row => Cat new_dim row) (transpose_lists (List.length ps0) (map (fun t => snd t) sps))))
           end
@@ -265,8 +314,19 @@ Section GetItem.
   Variable lz_getitem : arr -> list item -> res arr.   (* recursive occurrence (one unit of fuel less) *)
 
   (* member[idx]: a nested lazy stack recurses, a plain TensorDict is indexed by torch's rules *)
+  (* TensorDict._index_tensordict._check_for_invalid_index (_td.py:1573): a tensordict without batch dims accepts
+     only None / a 0-dim boolean / a 1-tuple of those / a tuple of Nones *)
+  Definition rank0_index_ok (idx : list item) : bool :=
+    match idx with
+    | [INone] | [IMask [] _] => true
+    | _ => forallb is_none idx
+    end.
   Definition m_getitem (m : arr) (idx : list item) : res arr :=
-    if is_stack m then lz_getitem m idx else Ok (Index idx m).
+    if is_stack m then lz_getitem m idx
+    else match shape_of m with
+         | Some [] => if rank0_index_ok idx then Ok (Index idx m) else Raised
+         | _ => Ok (Index idx m)
+         end.
   Definition m_get_or_self (m : arr) (idx : list item) : res arr :=
     if is_empty_idx idx then Ok m else m_getitem m idx.
 
@@ -310,10 +370,9 @@ Section GetItem.
                 (fun xs => let res := concat xs in
                            match res with
                            | [] => (* _new_lazy_unsafe(batch_size=_getitem_batch_size(self.batch_size, index)) *)
-                                   rbind (convert_ellipsis index (List.length shape)) (fun idx' =>
-                                   rbind (of_opt (res_shape idx' shape)) (fun gbs =>
+                                   rbind (gbs_raw index shape) (fun gbs =>
                                    (* TensorDict(batch_size=gbs, names=self.names): the names must fit *)
-                                   if Nat.eqb (List.length gbs) (List.length shape) then Ok (Stack cat_dim gbs []) else Raised))
+                                   if Nat.eqb (List.length gbs) (List.length shape) then Ok (Stack cat_dim gbs []) else Raised)
                            | x :: _ => Ok (Stack cat_dim [] res)
                            end)
         else
@@ -548,6 +607,21 @@ Fixpoint take_sizes {A} (sizes : list Z) (l : list A) : list (list A) :=
 Fixpoint offsets (start : Z) (sizes : list Z) : list (Z * Z) :=
   match sizes with [] => [] | s :: r => (start, start + s) :: offsets (start + s) r end.
 
+(* TensorDict.split(list, dim) (_td.py:1719): slices (0, s0), (s0, min(max, s0+s1)), ...; the first is NOT clamped;
+   raises only when the sizes sum to less than the dim *)
+Fixpoint td_split_go (maxs idx1 : Z) (sizes : list Z) : list (Z * Z) * Z :=
+  match sizes with
+  | [] => ([], idx1)
+  | s :: r => let hi := Z.min maxs (idx1 + s) in
+              let '(l, last) := td_split_go maxs hi r in ((idx1, hi) :: l, last)
+  end.
+Definition td_split_pieces (maxs : Z) (sizes : list Z) : res (list (Z * Z)) :=
+  match sizes with
+  | [] => Raised
+  | s0 :: r => let '(l, last) := td_split_go maxs s0 r in
+               if last <? maxs then Raised else Ok ((0, s0) :: l)
+  end.
+
 Definition int_split_sizes (n k : Z) : list Z :=
   (* [k] * ceil(n/k) with the last entry n - sum of the others *)
   let m := - ((n) / (- k)) in
@@ -586,9 +660,11 @@ Fixpoint lz_split (fuel : nat) (a : arr) (sizes : list Z) (isint : bool) (dim : 
             end)
       | _, Some sz =>
           (* TensorDict.split: torch semantics on the leaves (sizes taken as given) *)
-          let szs := if isint then (match sizes with k :: _ => if k <=? 0 then [] else int_split_sizes sz k | [] => [] end) else sizes in
-          if isint && (match sizes with k :: _ => k <=? 0 | [] => true end) then Raised else
-          Ok (map (fun se => Index (narrow_idx d (fst se) (snd se)) a) (offsets 0 szs))
+          if isint then
+            (if (match sizes with k :: _ => k <=? 0 | [] => true end) then Raised else
+             Ok (map (fun se => Index (narrow_idx d (fst se) (snd se)) a)
+                     (offsets 0 (match sizes with k :: _ => (if sz =? 0 then [0] else int_split_sizes sz k) | [] => [] end))))
+          else rbind (td_split_pieces sz sizes) (fun pcs => Ok (map (fun se => Index (narrow_idx d (fst se) (snd se)) a) pcs))
       | _, None => Raised
       end)
     end
